@@ -1,4 +1,4 @@
-import SFV.Proofs.Hbar
+import SFV.Proofs.HbarObs
 import Mathlib.Algebra.Field.Rat
 import Mathlib.Algebra.Order.Ring.Rat
 import Mathlib.Tactic.NormNum
@@ -180,5 +180,89 @@ theorem utils_coherent_consistent {K : Type} [Field K] (s re im : K) :
   refine Prod.ext (Prod.ext ?_ ?_) ?_ <;> simp only <;> ring
 
 example : utilsCoherent (1 / 2 : Rat) 3 (-1) = ((3, -1), 1 / 4) := by decide +kernel
+
+/-! ## part 2: bosonic and Fock state objects, decomposition path, when hbar is read -/
+
+/-- **bosonic_observables_invariant**: for a weighted sum of *any number* of Gaussian components (weights, means and
+covariances arbitrary field elements — also complex ones), `mean_photon` (mean and variance) and `displacement` of a
+`BaseBosonicState` do not depend on `s`, and `quad_expectation` scales as `(s, s²)` -/
+theorem bosonic_observables_invariant {K : Type} [Field K] (s : K) (hs : s ≠ 0) (h2 : (2 : K) ≠ 0) (n : Nat)
+    (w : List K) (mu2 : Nat → Nat → K) (cov2 : Nat → Nat → Nat → K) (m : Nat) (c sn : K) :
+    bMeanPhoton (mkBState s n w mu2 cov2) m = bMeanPhoton (mkBState 1 n w mu2 cov2) m ∧
+    bDisplacement (mkBState s n w mu2 cov2) m = bDisplacement (mkBState 1 n w mu2 cov2) m ∧
+    bQuad (mkBState s n w mu2 cov2) m c sn
+      = (s * (bQuad (mkBState 1 n w mu2 cov2) m c sn).1, s * s * (bQuad (mkBState 1 n w mu2 cov2) m c sn).2) := by
+  classical
+  exact ⟨bMeanPhoton_invariant s hs h2 n w mu2 cov2 m, bDisplacement_invariant s hs h2 n w mu2 cov2 m,
+    bQuad_scaling s n w mu2 cov2 m c sn⟩
+
+/-- non-vacuity: three components with a negative weight (a cat-like state), mode 1 of two modes, hbar = 2·(3/2)² -/
+example :
+    let w : List Rat := [3 / 4, 3 / 4, -1 / 2]
+    let mu2 : Nat → Nat → Rat := fun i j => ([[1, 0, 2, -1], [-1, 0, -2, 1], [0, 0, 0, 1 / 2]].getD i []).getD j 0
+    let cov2 : Nat → Nat → Nat → Rat := fun i j k => if j = k then (if i = 2 then 1 / 2 else 1) else (if j + k = 5 then 1 / 4 else 0)
+    bMeanPhoton (mkBState (3 / 2) 2 w mu2 cov2) 1 = bMeanPhoton (mkBState 1 2 w mu2 cov2) 1 ∧
+      (bMeanPhoton (mkBState 1 2 w mu2 cov2) 1).1 = 63 / 32 ∧
+      (bQuad (mkBState (3 / 2) 2 w mu2 cov2) 1 (3 / 5) (4 / 5)).2 ≠ (bQuad (mkBState 1 2 w mu2 cov2) 1 (3 / 5) (4 / 5)).2 := by
+  decide +kernel
+
+/-- **fock_quad_expectation_scaling**: `BaseFockState.quad_expectation` (operators on `cutoff + 5` levels, rotation,
+square, truncation, traces) returns `(s · mean₂, s² · var₂)` for every cutoff, every (not necessarily physical) reduced
+density matrix, every angle and every value of the `sqrt n` atoms -/
+theorem fock_quad_expectation_scaling {K : Type} [Field K] (s c sn : K) (sq : Nat → K) (D : Nat) (ρr ρi : Nat → Nat → K) :
+    fockQuad s c sn sq D ρr ρi
+      = (s * (fockQuad 1 c sn sq D ρr ρi).1, s * s * (fockQuad 1 c sn sq D ρr ρi).2) := by
+  classical
+  exact fockQuad_scaling s c sn sq D ρr ρi
+
+/-- non-vacuity: cutoff 3, a non-diagonal complex ρ, φ with (cos, sin) = (3/5, 4/5), rational stand-ins for the roots -/
+example :
+    let sq : Nat → Rat := fun n => [0, 1, 7 / 5, 26 / 15, 2, 9 / 4, 5 / 2, 8 / 3].getD n 0
+    let ρr : Nat → Nat → Rat := fun i j => ([[1 / 2, 1 / 4, 0], [1 / 4, 1 / 3, 1 / 5], [0, 1 / 5, 1 / 6]].getD i []).getD j 0
+    let ρi : Nat → Nat → Rat := fun i j => ([[0, 1 / 8, 0], [-1 / 8, 0, 1 / 7], [0, -1 / 7, 0]].getD i []).getD j 0
+    fockQuad (1 / 2) (3 / 5) (4 / 5) sq 3 ρr ρi
+        = (1 / 2 * (fockQuad 1 (3 / 5) (4 / 5) sq 3 ρr ρi).1, 1 / 2 * (1 / 2) * (fockQuad 1 (3 / 5) (4 / 5) sq 3 ρr ρi).2) ∧
+      (fockQuad 1 (3 / 5) (4 / 5) sq 3 ρr ρi).1 ≠ 0 ∧ (fockQuad 1 (3 / 5) (4 / 5) sq 3 ρr ρi).2 ≠ 0 := by
+  decide +kernel
+
+/-- **gaussian_decompose_apply_consistent**: the two ways `Gaussian(V, r)` reaches a back end agree on the means.  The
+displacement tail of `_decompose` emits `Xgate(u)` / `Zgate(u)` for the non-zero entries `u` of `r`; compiled at `s`
+each shifts its quadrature (hbar = 2 units) by exactly `u / s`, the entry of the vector `_apply` hands to
+`prepare_gaussian_state` -/
+theorem gaussian_decompose_apply_consistent {K G : Type} [Field K] [DecidableEq K] (s : K) (hs : s ≠ 0) (h2 : (2 : K) ≠ 0)
+    (u : K) (hu : u ≠ 0) (k : Nat) :
+    (compile (G := G) s (.xgate u false k)).map callShift = [some (k, u / s, 0)] ∧
+    (compile (G := G) s (.zgate u false k)).map callShift = [some (k, 0, u / s)] :=
+  ⟨compile_xgate_shift s hs h2 u hu k, compile_zgate_shift s hs h2 u hu k⟩
+
+/-- non-vacuity: `r = (3/5, 0, -1/4, 2)` on modes (2, 0): three gates (the zero entry is skipped), shifts `u / s` -/
+example :
+    (gaussianDecompDisp (G := Nat) [(3 / 5 : Rat), 0, -1 / 4, 2] [2, 0]).length = 3 ∧
+    (compileProg (G := Nat) (1 / 2 : Rat) (gaussianDecompDisp [3 / 5, 0, -1 / 4, 2] [2, 0])).map callShift
+      = [some (2, 6 / 5, 0), some (2, 0, -1 / 2), some (0, 0, 4)] := by
+  decide +kernel
+
+/-- **build_time_irrelevant**: which hbar was in force when an operation object was *constructed* does not matter for any
+program without `Gaussian(V, r)`: every other operation reads `sf.hbar` when it is applied -/
+theorem build_time_irrelevant {K G : Type} [Field K] [DecidableEq K] (sBuild s : K) (prog : List (FOp K G))
+    (hp : ∀ op ∈ prog, isGaussianPrep op = false) :
+    prog.flatMap (compileAt sBuild s) = compileProg s prog := by
+  simp only [compileProg]
+  apply List.flatMap_congr
+  intro op hop
+  exact compileAt_eq_compile sBuild s op (hp op hop)
+
+/-- … and it does matter for `Gaussian(V, r)`: `__init__` normalises `V` with the hbar in force at construction while
+`_apply` rescales `r` with the hbar in force at run time.  Built at hbar = 2 and applied at hbar = 1/2, the vacuum
+covariance `(1/4)·1` written in the run-time units reaches the back end as `(1/4)·1` instead of `1`.
+The property therefore speaks about programs built and run under one value of hbar (`compileAt s s = compile s`). -/
+theorem gaussian_build_run_counterexample :
+    compileAt (G := Nat) (1 : Rat) (1 / 2) (.gaussian [[1 / 4, 0], [0, 1 / 4]] [1, 0] [0])
+      ≠ compile (1 / 2) (.gaussian [[1 / 4, 0], [0, 1 / 4]] [1, 0] [0]) ∧
+    (∀ op : FOp Rat Nat, compileAt (1 / 2) (1 / 2) op = compile (1 / 2) op) := by
+  refine ⟨by decide +kernel, fun op => compileAt_same _ op⟩
+
+example : (∀ op ∈ ([.xgate (3 / 5) true 2, .homodyne 1 0 (some (1 / 2)) 0, .vgate (1 / 3) false 1] : List (FOp Rat Nat)),
+    isGaussianPrep op = false) := by decide
 
 end SFV.C15
